@@ -4,42 +4,171 @@ Binding A.
 Exhaustive part: every initial store (few keys, possibly one prefix storage closed) x every
 operation of the exhaustive config is one depth-1 state of TLC; its `step` holds the store before,
 the operation, the reply and the store after, as the map model of the statement gives them.
-Walk part: seeded -simulate walks of 40 operations on one store. Every step is performed on real
-leveldbstorage.PrefixStorage objects sharing one leveldbstorage.Storage (goleveldb memory
-storage); the raw store is read back with goleveldb's iterator after every step."""
+History part (Mode "hist"): every sequence of MaxSteps calls of HistKinds through ONE long-lived
+prefix storage object (Fill of L-1 / L / L+1 / 2L+1 ... filler keys, L = 333 = the batch limit of the
+repository's removers; Remove through the same and through a fresh object; Put before / after the
+fillers; Iter), from a store with keys under and around the prefix; each TLC state is one call of one
+history (the history is part of the state), the maximal histories are replayed call by call.
+Walk part: seeded -simulate walks of 40 operations on one store (Fill and kept / fresh objects
+included). Every step is performed on real leveldbstorage.PrefixStorage objects sharing one
+leveldbstorage.Storage (goleveldb memory storage); the raw store is read back with goleveldb's
+iterator after every step (fillers folded into runs [key, value, from, to] on both sides)."""
 import os
+import re
 from vlib import core
 
-ON_STORE = {"Put", "Get", "Exists", "Delete", "Iter", "Batch", "Remove", "Close"}
+ON_STORE = {"Put", "Get", "Exists", "Delete", "Iter", "Batch", "Fill", "Remove", "Close"}
 
 
+# ---------------------------------------------------------------- TLA+ values (ToString) -> Python
+_TOK = re.compile(r'\s*(<<|>>|\[|\]|\{|\}|,|\|->|"(?:[^"\\]|\\.)*"|-?\d+|[A-Za-z_][A-Za-z0-9_]*)')
+
+
+def parse_tla(text):
+    """records -> dict, tuples / sets -> list, strings, integers, TRUE / FALSE"""
+    toks, i, end = [], 0, len(text.rstrip())
+    while i < end:
+        m = _TOK.match(text, i)
+        if not m:
+            raise ValueError("cannot tokenise TLA+ value at %d: %s" % (i, text[i:i + 60]))
+        toks.append(m.group(1))
+        i = m.end()
+    pos = [0]
+
+    def val():
+        t = toks[pos[0]]
+        pos[0] += 1
+        if t in ("<<", "{"):
+            end = ">>" if t == "<<" else "}"
+            out = []
+            if toks[pos[0]] == end:
+                pos[0] += 1
+                return out
+            while True:
+                out.append(val())
+                t2 = toks[pos[0]]
+                pos[0] += 1
+                if t2 == end:
+                    return out
+                if t2 != ",":
+                    raise ValueError("expected , or %s" % end)
+        if t == "[":
+            out = {}
+            while True:
+                name = toks[pos[0]]
+                if toks[pos[0] + 1] != "|->":
+                    raise ValueError("expected |->")
+                pos[0] += 2
+                out[name] = val()
+                t2 = toks[pos[0]]
+                pos[0] += 1
+                if t2 == "]":
+                    return out
+                if t2 != ",":
+                    raise ValueError("expected , or ]")
+        if t.startswith('"'):
+            return re.sub(r"\\(.)", r"\1", t[1:-1])
+        if t == "TRUE":
+            return True
+        if t == "FALSE":
+            return False
+        return int(t)
+
+    v = val()
+    if pos[0] != len(toks):
+        raise ValueError("trailing text after TLA+ value")
+    return v
+
+
+def dump_steps(path, var="step"):
+    """`step` of every state of a -dump file whose value is a ToString()ed TLA+ record"""
+    pat = re.compile(r'^(?:/\\ )?' + re.escape(var) + r' = "(.*)"$')
+    with open(path, errors="replace") as f:
+        for line in f:
+            m = pat.match(line.rstrip("\n"))
+            if not m or not m.group(1):
+                continue
+            body = m.group(1).replace('\\"', '"').replace("\\\\", "\\")
+            try:
+                yield parse_tla(body)
+            except (ValueError, IndexError) as e:
+                raise core.MachineryError("cannot parse step value (%s): %s" % (e, body[:200]))
+
+
+# ---------------------------------------------------------------- stores: [[key, value] | [key, value, from, to] ...]
 def norm_kv(pairs):
-    return sorted([list(k), v] for k, v in pairs)
+    return sorted([list(e[0])] + list(e[1:]) for e in pairs)
+
+
+def nkeys(pairs):
+    return sum(abs(e[3] - e[2]) + 1 if len(e) == 4 else 1 for e in pairs)
 
 
 def starts(k, p):
     return len(k) >= len(p) and list(k[:len(p)]) == list(p)
 
 
+def kv_map(pairs):
+    m = {}
+    for e in pairs:
+        m.setdefault(tuple(e[0]), []).append(tuple(e[1:]))
+    return {k: sorted(v) for k, v in m.items()}
+
+
 def kv_diff(want, got):
-    w = {tuple(k): v for k, v in want}
-    g = {tuple(k): v for k, v in got}
+    w, g = kv_map(want), kv_map(got)
     return sorted(k for k in set(w) | set(g) if w.get(k) != g.get(k)), w, g
 
 
+def short(v, n=700):
+    s = str(v)
+    return s if len(s) <= n else s[:n] + "...(%d characters)" % len(s)
+
+
+def history_class(st):
+    """what the object the call goes through did before, as far as the key of a violation names it:
+    a Remove() of more than L keys (more than one round of the removers' batch limit)"""
+    if st["op"].get("o") == "kept" and st.get("rm", -1) > st.get("L", 1 << 30):
+        return ";same-object-removed(>L)"
+    return ""
+
+
+def size_class(st):
+    """removals: how many keys the model removes, against L (Remove, RemoveByPrefix) or the call's own limit"""
+    op = st["op"]
+    a = op["a"]
+    if a not in ("Remove", "RemoveByPrefix", "BatchRemove"):
+        return ""
+    n = nkeys(st["pre"]) - nkeys(st["kv"])
+    if a == "BatchRemove":
+        lim = op["lim"]
+        if lim < 1 or n == 0:
+            return ""
+        return ";n<lim" if n < lim else ";n=lim" if n == lim else ";n=k*lim" if n % lim == 0 else ";n>lim"
+    return ";removes>L" if n > st.get("L", 1 << 30) else ""
+
+
 def judge(st, row):
-    """-> (verdict, key, what); verdict in ok | soft | viol"""
+    """-> (verdict, key, what); verdict in ok | soft | viol. A violation's key = what differs (call) +
+    the size class of a removal + the history class of the object."""
+    v, key, what = judge0(st, row)
+    if v == "viol" and not key.startswith("panic("):
+        key += size_class(st) + history_class(st)
+    return v, key, short(what, 1500)
+
+
+def judge0(st, row):
     op = st["op"]
     a = op["a"]
     want_kv, got_kv = norm_kv(st["kv"]), norm_kv(row["kv"])
-    pre = {tuple(k): v for k, v in st["pre"]}
+    pre = {tuple(e[0]): e[1] for e in st["pre"]}
     if row.get("panic"):
         return "viol", "panic(%s)" % a, "%s panicked: %s" % (a, row["panic"][:300])
     diff, w, g = kv_diff(want_kv, got_kv)
     want_res, got_res = st["res"], row["res"]
     if a in ON_STORE:
         p = op["p"]
-        closed = p in st["closed"]
+        closed = p in st["closed"] and op.get("o", "kept") == "kept"   # a fresh object is open
         foreign = [k for k in diff if not starts(k, p)]
         if closed:
             if foreign:
@@ -69,7 +198,8 @@ def judge(st, row):
                             op["s"], op["l"], op["asc"], p, e, st["pre"])
             if got_res != want_res:
                 ws, gs = set(map(lambda e: tuple(e[0]), want_res)), set(map(lambda e: tuple(e[0]), got_res))
-                kind = "extra" if gs - ws else "missing" if ws - gs else "order"
+                kind = ("extra" if gs - ws else "missing" if ws - gs else
+                        "extra" if nkeys(got_res) > nkeys(want_res) else "missing" if nkeys(got_res) < nkeys(want_res) else "order")
                 return "viol", "iter-range(%s)" % kind, \
                     "Iter(%s..%s,asc=%s,stop=%s) through %s visited %s, model %s (store %s)" % (
                         op["s"], op["l"], op["asc"], op["stop"], p, got_res, want_res, st["pre"])
@@ -88,13 +218,51 @@ def judge(st, row):
     if diff:
         extra = [list(k) for k in diff if k in w and k not in g]
         left = [list(k) for k in diff if k in g and k not in w]
-        kind = "deleted-outside" if extra else "not-deleted" if left else "value"
+        kind = "deleted-outside" if extra else "not-deleted" if left else "partly-deleted" if a == "BatchRemove" else "value"
         arg = "prefix %s" % op.get("p") if a == "RemoveByPrefix" else "range %s..%s limit %s" % (op.get("s"), op.get("l"), op.get("lim"))
         return "viol", "%s(%s)" % (a, kind), "%s %s: deleted although outside %s, kept although inside %s (before %s)" % (
             a, arg, extra, left, st["pre"])
     if got_res != want_res:
         return "viol", "reply(%s)" % a, "%s answered %r (%s), model %r (before %s)" % (a, got_res, row.get("err"), want_res, st["pre"])
     return "ok", "", ""
+
+
+def hist_sequences(ctx, cfg, timeout):
+    """Mode "hist": one TLC state per call of a history (the history is part of the state). Returns the
+    maximal histories with at least one Fill as lists of steps (the step of every prefix of the history)."""
+    dump = os.path.join(ctx.work, "histdump")
+    r = ctx.tlc("PrefixStorage", cfg, args=["-dump", dump], timeout=timeout)
+    by_path = {}
+    for st in dump_steps(dump + ".dump"):
+        by_path[tuple(map(str, st["path"]))] = st
+    os.remove(dump + ".dump")
+    if not by_path:
+        raise core.MachineryError("no history states dumped by %s" % cfg)
+    depth = max(len(k) for k in by_path)
+    seqs = []
+    for k in sorted(by_path):
+        if len(k) != depth:
+            continue
+        tags = by_path[k]["path"][1:]
+        if not any(by_path[k[:j]]["op"]["a"] == "Fill" for j in range(2, depth + 1)):
+            continue   # histories of small stores are the walks' part
+        try:
+            seqs.append((tags, [by_path[k[:j]] for j in range(2, depth + 1)]))
+        except KeyError:
+            raise core.MachineryError("history %s: a prefix of it was not dumped" % (k,))
+    return r, seqs, depth - 1
+
+
+def slim(st):
+    """what the harness needs of a step"""
+    out = {"op": st["op"]}
+    for f in ("new", "single", "init"):
+        if st.get(f):
+            out[f] = st[f]
+    if st.get("single") or st.get("init"):
+        out["pre"] = st["pre"]
+        out["closed"] = st["closed"]
+    return out
 
 
 def run(ctx):
@@ -113,19 +281,31 @@ def run(ctx):
     rc = ctx.tlc("PrefixStorage", "PrefixStorage_mc_closed.cfg", allow_violation=True, timeout=900, count=False)
     ctx.extra["model_candidate_ImplAgrees(closed storages)"] = (
         "violated: " + (rc.violated or "?") if rc.safety_violation else "holds")
+    # every history of calls on one long-lived object, sizes around the removers' batch limit
+    hcfg = "PrefixStorage_hist_quick.cfg" if quick else "PrefixStorage_hist_thorough.cfg"
+    rh, seqs, hdepth = hist_sequences(ctx, hcfg, 3000)
+    runs = []     # (offset, length, kind, label)
+    for n_, (tags, sq) in enumerate(seqs):
+        sq = [dict(st) for st in sq]
+        sq[0]["init"] = 1
+        if n_ % 200 == 0:
+            sq[0]["new"] = 1     # a fresh goleveldb store now and then (deleted versions pile up)
+        runs.append((len(steps), len(sq), "history", tags))
+        steps.extend(sq)
     _, behs = ctx.tlc_simulate("PrefixStorage", "PrefixStorage_sim.cfg", num=60 if quick else 800, depth=41)
-    walks = []
     for b in behs:
         b[0]["new"] = 1
-        walks.append((len(steps), len(b)))
+        runs.append((len(steps), len(b), "walk", None))
         steps.extend(b)
-    ctx.rule = ("every (initial store, closed set, operation) of %s as one case + %d -simulate walks of PrefixStorage_sim.cfg "
-                "(one store per walk, judged up to the first difference); non-trivial = the store before or after the "
-                "operation is not empty; distinct by (store before, closed, operation)" % (cfg, len(behs)))
+    ctx.rule = ("every (initial store, closed set, operation) of %s as one case + every history of %d calls of %s on one "
+                "long-lived object (%d histories with a Fill) + %d -simulate walks of PrefixStorage_sim.cfg "
+                "(one store per history / walk, judged up to the first difference); non-trivial = the store before or "
+                "after the operation is not empty; distinct by (store before, closed, operation) resp. (history so far)"
+                % (cfg, hdepth, hcfg, len(seqs), len(behs)))
     cases = os.path.join(ctx.work, "cases.ndjson")
-    core.write_ndjson(cases, steps)
+    core.write_ndjson(cases, [slim(st) for st in steps])
     res = os.path.join(ctx.work, "res.ndjson")
-    ctx.vh(["C25", "replay", "--in", cases, "--out", res], timeout=2400)
+    ctx.vh(["C25", "replay", "--in", cases, "--out", res], timeout=3000)
     rows = core.read_ndjson(res)
     hang = None
     if rows and rows[-1].get("hang"):
@@ -136,14 +316,22 @@ def run(ctx):
         raise core.MachineryError("harness answered %d of %d steps" % (len(rows), len(steps)))
     soft = {}
     kinds = {}
+    sizes = {}
     calls = 0
 
-    def one(st, row, ctxinfo):
+    def one(st, row, ctxinfo, canon):
         nonlocal calls
         calls += 1
-        kinds[st["op"]["a"]] = kinds.get(st["op"]["a"], 0) + 1
-        ctx.case([st["pre"], st["closed"], st["op"]], nontrivial=bool(st["pre"]) or bool(st["kv"]),
-                 sample={"op": st["op"], "pre": st["pre"], "closed": st["closed"], "reply": row["res"], "kv": row["kv"]})
+        op = st["op"]
+        kinds[op["a"]] = kinds.get(op["a"], 0) + 1
+        if op["a"] in ("Remove", "RemoveByPrefix", "BatchRemove", "Fill"):
+            n_ = op["n"] if op["a"] == "Fill" else nkeys(st["pre"]) - nkeys(st["kv"])
+            L = st.get("L", 333)
+            cl = ("0" if n_ == 0 else "<L" if n_ < L else "=L" if n_ == L else "=k*L" if n_ % L == 0 else "L<..<2L" if n_ < 2 * L else ">2L")
+            sizes.setdefault(op["a"], {})
+            sizes[op["a"]][cl] = sizes[op["a"]].get(cl, 0) + 1
+        ctx.case(canon, nontrivial=bool(st["pre"]) or bool(st["kv"]),
+                 sample={"op": op, "pre": st["pre"], "closed": st["closed"], "reply": row["res"], "kv": row["kv"]})
         v, key, what = judge(st, row)
         if v == "soft":
             soft[key] = soft.get(key, 0) + 1
@@ -152,32 +340,59 @@ def run(ctx):
         return v
 
     for i in range(min(nexh, len(rows))):
-        one(steps[i], rows[i], "independent case")
+        one(steps[i], rows[i], "independent case", [steps[i]["pre"], steps[i]["closed"], steps[i]["op"]])
     ctx.traces += min(nexh, len(rows))
-    cut = 0
-    for (off, ln) in walks:
+    cut = {"history": 0, "walk": 0}
+    done = {"history": 0, "walk": 0}
+    seen_hist = set()
+    for (off, ln, kind, tags) in runs:
         if off + ln > len(rows):
             break
         ctx.traces += 1
+        done[kind] += 1
         for j in range(ln):
-            v = one(steps[off + j], rows[off + j], {"walk_prefix": [s["op"] for s in steps[off:off + j]]})
+            st = steps[off + j]
+            if kind == "history":
+                hk = tuple(map(str, st["path"]))
+                if hk in seen_hist:
+                    # this prefix of the history was judged with an earlier history (same calls, same replies expected):
+                    # only a difference is news
+                    v, key, what = judge(st, rows[off + j])
+                    if v == "ok":
+                        continue
+                seen_hist.add(hk)
+                canon = ["history", st["path"]]
+            else:
+                canon = [st["pre"], st["closed"], st["op"]]
+            info = {"kind": kind, "init": steps[off]["pre"], "walk_prefix": [s_["op"] for s_ in steps[off:off + j]]}
+            if tags is not None:
+                info["history"] = tags
+            v = one(st, rows[off + j], info, canon)
             if v != "ok":
-                cut += 1
-                break   # the real store and the model have parted: the rest of the walk says nothing
+                cut[kind] += 1
+                break   # the real store and the model have parted: the rest says nothing
     if hang is not None and not ctx.viol:
         raise core.MachineryError("the call %s (store before %s) did not return within the watchdog time; %d of %d steps answered"
                                   % (hang["op"], hang["pre"], len(rows), len(steps)))
-    ctx.extra["real_calls"] = calls
+    ctx.extra["real_calls"] = len(rows)
+    ctx.extra["calls_judged_as_cases"] = calls
     ctx.extra["independent_cases"] = nexh
-    ctx.extra["walks"] = len(walks)
-    ctx.extra["walks_cut_at_first_difference"] = cut
+    ctx.extra["histories"] = done["history"]
+    ctx.extra["history_length"] = hdepth
+    ctx.extra["history_states"] = rh.distinct
+    ctx.extra["walks"] = done["walk"]
+    ctx.extra["cut_at_first_difference"] = cut
     ctx.extra["operations_by_kind"] = kinds
+    ctx.extra["removal_and_fill_sizes_against_L"] = sizes
     ctx.extra["soft_differences_not_alarmed"] = soft
     ctx.assumptions = [
         "keys over the bytes {00,01,ff}; prefixes 01, 01 00, 01 ff, ff, ff ff (+ 00, 00 01 in walks): nested, sibling, all-0xff",
+        "filler keys prefix ++ {02 hi lo}: 02 occurs in no other key, so all fillers of a prefix lie on one side of every "
+        "bound the model forms (FillersUniform, checked by TLC) and the model keeps them as one run",
+        "L = 333 (the batch limit the repository's removers pass to BatchRemove); sizes L-1, L, L+1, 2L+1 (quick) + 2L, 3L+2 (thorough)",
         "a key equal to a prefix counts as under it (it starts with it)",
         "empty user keys and empty non-nil range bounds are not generated (the code answers ErrClosed for them)",
-        "Batch applies a batch made by NewBatch() of the same prefix storage",
+        "Batch / Fill apply a batch made by NewBatch() of the same prefix storage object",
         "on a closed prefix storage only observing / changing keys outside the former prefix is alarmed; other deviations "
         "from 'answers closed, does nothing' are counted in soft_differences_not_alarmed",
         "BatchRemove with limit 0 (removes nothing, returns 0) is counted in soft_differences_not_alarmed: the statement is "
@@ -187,7 +402,7 @@ def run(ctx):
 
 
 def replay(ctx, path):
-    """re-run the failing step of a replay file (with the operations that led to it, if it came from a walk)"""
+    """re-run the failing step of a replay file (with the operations that led to it, if it came from a walk / history)"""
     import json
     case = json.load(open(path))["case"]
     st = case["step"]
@@ -196,10 +411,22 @@ def replay(ctx, path):
     if isinstance(c, dict) and not st.get("single"):
         for op in c.get("walk_prefix", []):
             steps.append({"op": op, "pre": [], "closed": [], "res": None, "kv": []})
+        st = dict(st)
+        st.pop("init", None)
     steps.append(st)
+    steps[0] = dict(steps[0])
     steps[0]["new"] = 1
+    if isinstance(c, dict) and not st.get("single"):
+        steps[0]["init"] = 1
+        steps[0]["pre0"] = c.get("init", [])
+    out = []
+    for s_ in steps:
+        o = slim(s_)
+        if "pre0" in s_:
+            o["pre"], o["closed"] = s_["pre0"], []
+        out.append(o)
     cases, res = os.path.join(ctx.work, "cases.ndjson"), os.path.join(ctx.work, "res.ndjson")
-    core.write_ndjson(cases, steps)
+    core.write_ndjson(cases, out)
     ctx.vh(["C25", "replay", "--in", cases, "--out", res])
     rows = core.read_ndjson(res)
     if len(rows) != len(steps) or rows[-1].get("hang"):
